@@ -141,6 +141,7 @@ Formulas == <<
   <<"P_C18_OneGoAwayWithCode", P_C18_OneGoAwayWithCode>>,
   <<"P_C18_SizeViolationsAreFrameSizeErrors", P_C18_SizeViolationsAreFrameSizeErrors>>,
   <<"P_C19_ClosedStaysQuiet", P_C19_ClosedStaysQuiet>>,
+  <<"P_C19_GoAwayDiscardsOutput", P_C19_GoAwayDiscardsOutput>>,
   <<"P_C20_ResetRacesAreStreamErrors", P_C20_ResetRacesAreStreamErrors>>,
   <<"P_C22_PushOnlyWhenAllowed", P_C22_PushOnlyWhenAllowed>>,
   <<"P_C23_PriorityChangesNothing", P_C23_PriorityChangesNothing>>,
